@@ -214,7 +214,9 @@ Fixpoint bad {A} (f : A -> bool) (l : list A) (i : nat) : list nat :=
 
 def coq_intake_case(case, obs):
     executed, queue, bufs = obs
-    evs = '[' + ';'.join(f'Read {e[1]} {zs(e[2])}' if e[0] == 'R' else 'Pop' for e in case['evs']) + ']'
+    # a callback invocation with nothing in the pipe is os.read -> EAGAIN (the OSError branch: no effect), not a
+    # read of zero bytes: it is not an event of the model
+    evs = '[' + ';'.join(f'Read {e[1]} {zs(e[2])}' if e[0] == 'R' else 'Pop' for e in case['evs'] if e[0] != 'R' or e[2]) + ']'
     ex = '[' + ';'.join(f'({s},{zs(c)})' for s, c in executed) + ']'
     q = '[' + ';'.join(f'({s},{zs(c)})' for s, c in queue) + ']'
     bs = '[' + ';'.join('None' if b is None else f'Some {zs(b)}' for b in bufs) + ']'
@@ -948,7 +950,7 @@ def check(tier, seed):
                    big_ok, big_detail)
 
     # small scope, exhaustive: EVERY way of cutting a short stream into reads (implementation side only)
-    small = b'a b\n\ndebug x\r\n[c]\nd'[: (13 if quick else 17)]
+    small = b'[a]\n\ndebug x\r\nb c\nd'[: (14 if quick else 18)]
     want_small = py_commands(small)
     ex_bad, ex_n = [], 0
     for mask in range(1 << (len(small) - 1)):
